@@ -26,6 +26,21 @@ CHECKS = {
         technique="differential runtime monitor: reference program as executable oracle on replayed/steered deviate tapes",
         design="DESIGN.md section 1.2-1.4 and section 2, C01",
     ),
+    "C02": dict(
+        script="checks/c02.py",
+        level="translation_validation",
+        text="Every (isotope, level 0..16, mode 1..20) cell, plus seeded energy windows on the window-capable modes and seeded "
+             "NMEs for mode 18, is initialised on both the port and the Fortran reference: ier, toallevents, clamped range, level "
+             "energy and initialisation draws must agree; accepted cells then generate events on shared deviate tapes (i.i.d. and "
+             "with each of the first 12 cells pinned over a log-tail/quantile grid) compared particle by particle (primary leptons/"
+             "X-rays, de-excitation cascade, follow-up alpha chains), and the porcelain generator must reproduce the plumbing bit "
+             "for bit. Quick samples 25% of the quadrature-heavy modes, thorough runs all of them.",
+        note="Same trusted base as C01 (shared CERNLIB kernels, pi widening, zero-initialised reference locals, port fermi linked "
+             "into the reference while the C01 fermi finding stands). Mode 20 with level != 0 is left to C06 (the reference "
+             "silently rewrites the level).",
+        technique="differential runtime monitor: reference program as executable oracle on replayed/steered deviate tapes",
+        design="DESIGN.md section 2, C02",
+    ),
     "C16": dict(
         script="checks/c16.py",
         level="exploration",
